@@ -18,6 +18,15 @@
 //!   [7,r,k,e] RET     logged by the caller after run!/run_blocking! of scope r returned / unwound
 //!   [8,0,0,0] EXT     logged by the driver before it advances the manual clock past the deadline
 //!   [0,t,0,0] START   logged by t when its body starts
+//!   [9,t,0,0] HOOK    logged by the hook waker when it is woken (diagnostic, not part of the model)
+//!
+//! Directed family (atomicity of TerminateGuard::set_err): two extra actions
+//!   ["hook",k,ms]  polls one `ctx.canceled()` future with a custom std::task::Wake waker. tokio's
+//!                  Semaphore::close calls wake() synchronously on the cancelling thread, i.e. inside
+//!                  the first failing task's set_err -> ctx.cancel(). The waker releases every task
+//!                  parked in ["held"], waits until k of them passed, and stalls that thread for ms.
+//!   ["held"]       parks the task until the hook fired; logged as OBS (the release happens after the
+//!                  context's cancelled flag was set), so the held tasks fail strictly after the first.
 use serde_json::json;
 use std::collections::HashMap;
 use std::future::Future;
@@ -38,6 +47,8 @@ enum Act {
     Cancel,
     Fail(i64),
     Panic,
+    Hook(usize, u64),
+    Held,
 }
 
 struct TaskDef {
@@ -52,6 +63,51 @@ struct Shared {
     released: Vec<AtomicBool>,
     seed: u64,
     deadline: time::Deadline,
+    hook_released: AtomicBool,
+    held_passed: std::sync::atomic::AtomicUsize,
+}
+
+type Callback = Box<dyn FnOnce() + Send>;
+/// Waker that runs a callback synchronously on the thread that calls wake().
+struct HookWaker(Mutex<Option<Callback>>);
+impl std::task::Wake for HookWaker {
+    fn wake(self: Arc<Self>) {
+        let f = self.0.lock().unwrap().take();
+        if let Some(f) = f {
+            f();
+        }
+    }
+}
+
+/// Registers the hook on `ctx.canceled()`; the returned future must be kept alive.
+fn register_hook<'env>(
+    ctx: &'env ctx::Ctx,
+    sh: &Arc<Shared>,
+    tid: usize,
+    k: usize,
+    stall_ms: u64,
+) -> Pin<Box<dyn Future<Output = ()> + Send + 'env>> {
+    let sh2 = sh.clone();
+    let waker: std::task::Waker = Arc::new(HookWaker(Mutex::new(Some(Box::new(move || {
+        sh2.log([9, tid as i64, 0, 0]);
+        sh2.hook_released.store(true, Ordering::SeqCst);
+        let t0 = std::time::Instant::now();
+        while sh2.held_passed.load(Ordering::SeqCst) < k && t0.elapsed().as_millis() < 3000 {
+            std::thread::yield_now();
+        }
+        std::thread::sleep(std::time::Duration::from_millis(stall_ms));
+    })))))
+    .into();
+    let mut fut: Pin<Box<dyn Future<Output = ()> + Send + 'env>> = Box::pin(ctx.canceled());
+    if fut
+        .as_mut()
+        .poll(&mut std::task::Context::from_waker(&waker))
+        .is_ready()
+    {
+        // already cancelled: nothing will call the waker
+        sh.hook_released.store(true, Ordering::SeqCst);
+    }
+    fut
 }
 
 impl Shared {
@@ -116,6 +172,7 @@ fn run_async<'env>(
         let mut end_guard = unwind_log(&sh, [6, t, 2, 0]);
         sh.log([0, t, 0, 0]);
         let mut handles: HashMap<usize, scope::JoinHandle<'env, ()>> = HashMap::new();
+        let mut hooks = vec![];
         let n = sh.tasks[tid].acts.len();
         for pc in 0..n {
             match sh.pert(tid, pc) {
@@ -184,8 +241,17 @@ fn run_async<'env>(
                 Act::Panic => {
                     panic!("verif: scripted panic");
                 }
+                Act::Hook(k, ms) => hooks.push(register_hook(ctx, &sh, tid, *k, *ms)),
+                Act::Held => {
+                    while !sh.hook_released.load(Ordering::SeqCst) {
+                        tokio::time::sleep(std::time::Duration::from_micros(50)).await;
+                    }
+                    sh.log([3, t, 0, 0]);
+                    sh.held_passed.fetch_add(1, Ordering::SeqCst);
+                }
             }
         }
+        drop(hooks);
         end_guard.armed = false;
         sh.log([6, t, 0, 0]);
         Ok(())
@@ -205,6 +271,7 @@ fn run_blocking<'env>(
     let mut end_guard = unwind_log(&sh, [6, t, 2, 0]);
     sh.log([0, t, 0, 0]);
     let mut handles: HashMap<usize, scope::JoinHandle<'env, ()>> = HashMap::new();
+    let mut hooks = vec![];
     let n = sh.tasks[tid].acts.len();
     for pc in 0..n {
         match sh.pert(tid, pc) {
@@ -273,8 +340,17 @@ fn run_blocking<'env>(
             Act::Panic => {
                 panic!("verif: scripted panic");
             }
+            Act::Hook(k, ms) => hooks.push(register_hook(ctx, &sh, tid, *k, *ms)),
+            Act::Held => {
+                while !sh.hook_released.load(Ordering::SeqCst) {
+                    std::thread::sleep(std::time::Duration::from_micros(50));
+                }
+                sh.log([3, t, 0, 0]);
+                sh.held_passed.fetch_add(1, Ordering::SeqCst);
+            }
         }
     }
+    drop(hooks);
     end_guard.armed = false;
     sh.log([6, t, 0, 0]);
     Ok(())
@@ -302,6 +378,8 @@ fn parse_tasks(c: &serde_json::Value) -> Vec<TaskDef> {
                         "cancel" => Act::Cancel,
                         "fail" => Act::Fail(a[1].as_i64().unwrap()),
                         "panic" => Act::Panic,
+                        "hook" => Act::Hook(arg(1), a[2].as_u64().unwrap()),
+                        "held" => Act::Held,
                         k => panic!("bad act {k}"),
                     }
                 })
@@ -339,6 +417,8 @@ fn main() {
                 released: (0..n).map(|i| AtomicBool::new(i == 0)).collect(),
                 seed,
                 deadline,
+                hook_released: AtomicBool::new(false),
+                held_passed: std::sync::atomic::AtomicUsize::new(0),
             });
             let sh2 = sh.clone();
             let clock2 = clock.clone();
